@@ -205,4 +205,7 @@ def run(ctx) -> Result:
     from . import C19
     C19.check_equivalence(res, proj, False, "B5")
     res.not_decided.append("that equal means compare equal in floating point (IEEE division is correctly rounded; argued)")
+    if not res.violations:      # the end-to-end pass adds nothing to an established violation (and may not terminate on it)
+        from . import e2e
+        e2e.check(res, ctx.proj, "C12", ctx.thorough)
     return res
